@@ -595,8 +595,17 @@ def follow (old : Book) (sheets : List Entry) : Nat :=
     | none => 0
   | none => 0
 
-def selectOnly (sheets : List Entry) (i : Nat) : List Entry :=
-  (sheets.zipIdx).map fun (e, k) => { e with selected := k == i }
+/-- only the sheet at position `i` is selected (`k` = position of the head) -/
+def selFrom (i : Nat) : Nat → List Entry → List Entry
+  | _, [] => []
+  | k, e :: es => { e with selected := i == k } :: selFrom i (k + 1) es
+
+def selectOnly (sheets : List Entry) (i : Nat) : List Entry := selFrom i 0 sheets
+
+/-- every sheet but the one at position `a` is deselected -/
+def unselFrom (a : Nat) : Nat → List Entry → List Entry
+  | _, [] => []
+  | k, e :: es => (if a = k then e else { e with selected := false }) :: unselFrom a (k + 1) es
 
 def otherVisible (b : Book) (n : Name) : Bool :=
   b.sheets.any fun e => !eqFold e.name n && e.visible
@@ -666,7 +675,7 @@ def group (b : Book) (ns : List Name) : Option Book :=
     some { b with sheets := b.sheets.map fun e => if ns.any (fun n => eqFold n e.name) then { e with selected := true } else e }
 
 def ungroup (b : Book) : Book :=
-  { b with sheets := (b.sheets.zipIdx).map fun (e, k) => if k == b.active then e else { e with selected := false } }
+  { b with sheets := unselFrom b.active 0 b.sheets }
 
 def setCell (b : Book) (n : Name) (v : Nat) : Option Book :=
   if !validName n then none else
